@@ -484,7 +484,7 @@ class Session:
     def prove(s, name, goal, hyps=(), *, timeout=None, solver='z3', kind='spec', functions=(), bounds='', mandatory=True,
               replay=None, vars_=(), expect='unsat', note=''):
         """check hyps /\\ not goal.  replay(model)-> ('reproduced'|'not-reproduced'|'no-replay', info)"""
-        timeout = timeout or s.cap(60, 180)
+        timeout = timeout or s.cap(150, 300)
         asserts = list(hyps) + [z3.Not(goal)]
         try:
             r, m, dt, used = s.query(asserts, timeout, solver, vars_)
